@@ -7,7 +7,7 @@ A check for property X reports the records in BAD_X; all checks share this pipel
 import os, time, json, subprocess, shutil, hashlib
 from vlib import *
 
-ARENA_PROPS = ["C01", "C02", "C03", "C05", "C07", "C10", "C12", "C13", "C14", "C15", "C18"]
+ARENA_PROPS = ["C01", "C02", "C03", "C05", "C07", "C10", "C12", "C13", "C14", "C15", "C16", "C18"]
 
 
 def extract_behaviours(tlc_out, path, start_id=1):
@@ -180,7 +180,7 @@ def _arena_pipeline(tier, focus, variants, key):
         raise ToolError("TLC saw %d records, replayer wrote %d" % (checked, stats["lines"]))
     bad = {p: tagged_index_sets(results, parts, "BAD_" + p) for p in ARENA_PROPS}
     drift = tagged_index_sets(results, parts, "DRIFT")
-    counters = {k: tagged_int(results, k) for k in ("N_EXIT", "N_REALLOC", "N_NEWCHUNK", "N_RECLAIM", "N_FAIL", "N_CLAIMED_OP", "N_ALIGNED", "N_REUSE", "N_PREP", "N_COMMIT")}
+    counters = {k: tagged_int(results, k) for k in ("N_EXIT", "N_REALLOC", "N_NEWCHUNK", "N_RECLAIM", "N_FAIL", "N_CLAIMED_OP", "N_ALIGNED", "N_REUSE", "N_PREP", "N_COMMIT", "N_PARTS")}
     shutil.rmtree(d, ignore_errors=True)
     mc.out = mc.out[-4000:]
     return {"wd": wd, "beh": beh, "obs": obs, "mc": mc, "nsim": nsim, "stats": stats, "crashes": crashes, "bad": bad,
@@ -279,7 +279,25 @@ def fresh_chunk_clause(tier, out):
             "mc_states": P["mc"].distinct}
 
 
+def split_parts_clause(tier, out):
+    """used by C16 (lib/checks_vec.py): the memory-level clause of C16 -- split-off parts are independent allocations for
+    the allocator's is-last logic -- evaluated on replayed Arena.tla behaviours that contain Split steps."""
+    P = arena_pipeline(tier, "general")
+    bad = P["bad"]["C16"]
+    recs = nth_lines(P["obs"], [g for (_, _, g) in bad][:100])
+    behs = behaviour_by_id(P["beh"], [r["b"] for r in recs.values()][:20])
+    for g, rec in sorted(recs.items()):
+        out.violation({"clause": "C16-memory", "a": rec.get("a"), "wrap": rec.get("args", {}).get("wrap")},
+                      {"check": "C16", "step": rec, "behaviour": behs.get(rec["b"])})
+    return {"behaviours": P["stats"]["behaviours"], "steps_checked": P["checked"],
+            "steps_with_live_split_parts": P["counters"]["N_PARTS"], "mc_states": P["mc"].distinct}
+
+
 def check_c01(tier): return check_arena_property("C01", tier)
+def check_c07(tier): return check_arena_property("C07", tier)
+def check_c14(tier): return check_arena_property("C14", tier)
+def check_c15(tier): return check_arena_property("C15", tier)
+def check_c18(tier): return check_arena_property("C18", tier)
 def check_c02(tier): return check_arena_property("C02", tier)
 def check_c03(tier): return check_arena_property("C03", tier)
 def check_c05(tier): return check_arena_property("C05", tier)
